@@ -530,8 +530,9 @@ def receiveTrailers (c : Cfg) (s : S) : S :=
 
 /-- `s.responseTimer != nil` as `doRetry` reads it.  The field `gtObj` is the pointer (set when the timer is created, kept when it
 fires, forgotten by `cleanUp`); an armed timer has an object and an object exists only after the request was sent — on every
-reachable state `global → gtObj → reqSent` (`Lemmas/Downstream/Timer10.lean`: `timer_object_run`), so this IS `s.gtObj`
-(`hasTimerObj_eq`); written with the two implied facts so that the invariant proof does not depend on that lemma. -/
+reachable state `global → gtObj → reqSent` (`Lemmas/Downstream/TimerObj10.lean`: `timer_object_run`), so this IS `s.gtObj`
+(`hasTimerObj_eq`, Props/C03 `timer_object_is_pointer`); written with the two implied facts so that the invariant proof does
+not depend on that lemma. -/
 def hasTimerObj (s : S) : Bool := (s.gtObj || s.global) && s.reqSent
 
 /-- the operations of `downStream.doRetry` on the machine state ([proxy10] `doRetry` is the REGENERATED step program
@@ -719,10 +720,10 @@ def upfRunning (s : S) : Bool := s.running && s.phase == .UpFilter
 
 /-- client stream k is reset by its connection / peer: listeners' OnResetStream, then destroy.  A one-way client
 stream (no receiver) is not registered with its connection (xprotocol `streamConn.NewStream`), nothing resets it.
-The reset of a stream whose streamed response was accepted is delivered while the worker waits for the body
-(`bodyWait`) or while it runs the sender filters of the response ([proxy7] `upfRunning`: the label `reset during UpFilter`);
-one racing with the running worker in the other phases between the acceptance of the head and its forwarding (the wake-up
-in WaitNotify not yet consumed, UpRecvHeader) is not modelled (the label is a no-op then). -/
+[proxy10] The reset of a stream whose streamed response was accepted is a label in EVERY state: while the worker waits for the
+body (`bodyWait`), while it runs the sender filters of the response ([proxy7] `upfRunning`), and between the acceptance of the
+head and its forwarding (the wake-up in WaitNotify not yet consumed, before UpRecvHeader) — the next `processError` finds the
+raised reset together with the accepted head. -/
 def upResetL (c : Cfg) (s : S) (k : Nat) (reason : Reason) : S :=
   match s.streams[k]? with
   | some st =>
@@ -837,8 +838,9 @@ swing only after an upstream reset (and `setupRetry`'s swing then frees the slot
 taken); the reset it raises is DROPPED by `upstreamRequest.OnResetStream` because the request is marked.  Nothing the rest of
 the worker's phase does (clearing `upstreamReset`, `processError`'s tests, the detach) reads or writes one of the three fields,
 so the label is its net effect on the back-off state the worker enters: timer fired, expiry recorded, slot taken iff
-`afterCas` (`Lemmas/Downstream/Regen10.lean`: `setupRetry_window_*` derive this effect from the regenerated step programs of
-`setupRetry` with the callback at its two yield sites).  Enabled while the global timer is armed. -/
+`afterCas` (`Lemmas/Downstream/Window10.lean`: `gtInSetup_after_mark` / `gtInSetup_after_swing` derive this effect from the
+regenerated step programs — `Gen.ProxyBackoff.setupRetry` with the regenerated callback at its two yield sites, then the rest of
+the worker's phase — up to the listener registration of the client stream that is gone).  Enabled while the global timer is armed. -/
 def gtInSetup (s : S) (afterCas : Bool) : S :=
   if !(backoff s && s.global) then s else
   { s with global := false, globalExpired := s.globalExpired || globalCallbackRecordsExpiry, urr := s.urr || afterCas }
